@@ -13,8 +13,6 @@ CONSTANTS
   Hi = 700
   Step = 3
   RbfDepth = 4
-  PeerDepth = 2
-  PeerWide = TRUE
   TightCap = TRUE
 INVARIANTS Synced Bounded BoundedDefault BothSigned Agree NoStall NoAbort Between TxInvariants
 CHECK_DEADLOCK FALSE
